@@ -278,7 +278,7 @@ func serSequence(p *Prog, fn *ssa.Function, write bool) []serTok {
 		callee := call.Call.StaticCallee()
 		name := ""
 		if callee != nil {
-			name = callee.Name()
+			name = publicName(callee)
 		}
 		switch {
 		case write && callee != nil && writePrims[name] != "" && fnPkgShort(callee) == "ast":
@@ -454,7 +454,7 @@ func ruleSER10(c *Ctx) {
 		// write side: argument of WriteIntToWriter
 		for _, ci := range callsIn(w) {
 			call, ok := ci.(*ssa.Call)
-			if !ok || call.Call.StaticCallee() == nil || call.Call.StaticCallee().Name() != "WriteIntToWriter" {
+			if !ok || call.Call.StaticCallee() == nil || publicName(call.Call.StaticCallee()) != "WriteIntToWriter" {
 				continue
 			}
 			n++
@@ -478,7 +478,7 @@ func ruleSER10(c *Ctx) {
 		// read side: result of ReadIntFromReader -> conversions -> field
 		for _, ci := range callsIn(r) {
 			call, ok := ci.(*ssa.Call)
-			if !ok || call.Call.StaticCallee() == nil || call.Call.StaticCallee().Name() != "ReadIntFromReader" {
+			if !ok || call.Call.StaticCallee() == nil || publicName(call.Call.StaticCallee()) != "ReadIntFromReader" {
 				continue
 			}
 			for _, res := range resultValues(call, 0) {
